@@ -768,6 +768,26 @@ func raceSuite(c *Ctx) []Finding {
 	}
 	count("sum-many-files", "ok n>128")
 
+	// an item whose responses are large (hundreds of kilobytes each): whatever the server keeps
+	// from one answer to the next — a buffer it reuses, say — is only kept, or only matters,
+	// beyond some size, and two requests in flight at once must still each get their own bytes
+	bigItem := filepath.Join(root, "big")
+	os.MkdirAll(bigItem, 0755)
+	bigN := 40000
+	for f := 0; f < 2; f++ {
+		db, err := wt.Create(filepath.Join(bigItem, fmt.Sprintf("b%d.wsp", f)), []wt.ArchiveInfo{wt.NewArchiveInfo(1, uint32(bigN))}, wt.Sum, 0)
+		if err != nil {
+			continue
+		}
+		pts := make([]wt.Point, 0, bigN)
+		for i := bigN - 1; i >= 1; i-- {
+			pts = append(pts, wt.Point{Time: wt.Timestamp(g.now - i), Value: wt.Value(float64((i*(f+3))%1009) + 0.5)})
+		}
+		db.UpdatePointsForArchive(pts, 0, wt.Timestamp(g.now))
+		db.Sync()
+		db.Close()
+	}
+
 	// server: every endpoint in parallel
 	self, _ := os.Executable()
 	port := freePort()
@@ -792,6 +812,11 @@ func raceSuite(c *Ctx) []Finding {
 			// a never-written file, alone and as the first file of a sum (asked for before the sum)
 			fmt.Sprintf("/view?file=it4%%2Fk00.wsp&retention=-1&from=%s&until=%s&now=%s", tsq(0), tsq(g.now), tsq(g.now)),
 			fmt.Sprintf("/sum?item=it4&pattern=*.wsp&retention=-1&from=%s&until=%s&now=%s", tsq(g.now-g.lay.MaxRet()), tsq(g.now), tsq(g.now)),
+			// large answers: the sum of the big item first, then a view of each of its files and the raw dump
+			fmt.Sprintf("/sum?item=big&pattern=*.wsp&retention=-1&from=%s&until=%s&now=%s", tsq(g.now-bigN+1), tsq(g.now), tsq(g.now)),
+			fmt.Sprintf("/view?file=big%%2Fb0.wsp&retention=-1&from=%s&until=%s&now=%s", tsq(g.now-bigN+1), tsq(g.now), tsq(g.now)),
+			fmt.Sprintf("/view?file=big%%2Fb1.wsp&retention=0&from=%s&until=%s&now=%s", tsq(g.now-bigN+1), tsq(g.now), tsq(g.now)),
+			"/view-raw?file=big%2Fb1.wsp&retention=-1",
 			// requests that fail, each with its own message: concurrent failures on one endpoint
 			// must not see each other's error
 			"/view?file=&retention=-1", "/view?file=it%2Ff00.wsp&retention=-1&from=zzz", "/view?file=it%2Ff00.wsp&retention=-1&until=zzz",
